@@ -7,13 +7,21 @@ the mathematical result is representable, and then that result").
     every entry on the real int8/uint8 instantiations (all eight functions) and, through exact
     embeddings, on every wider type; Apalache boundary witnesses (OverflowW.tla: one operand pair per
     branch outcome of each helper at W = 16/32/64, with the solver-computed required outcome) are
-    replayed on the real wide instantiations."""
+    replayed on the real wide instantiations (thorough tier).
+(R) boundary sweep (OverflowB.tla, harness/cmd/overflow/sweep.go): for every built-in and named integer type,
+    ~450 000 operand pairs derived from where the exact result crosses MIN/MAX (every magnitude 2^k +- e, square
+    roots of the bounds, seeded random operands of every bit length, every pair of magnitude bands and signs),
+    classified by OverflowB.ClassId. (V) Apalache validates the records (every disagreeing one + a seeded sample of
+    class representatives) against OverflowB.Conforms before a disagreement becomes a VIOLATION; (G) Apalache decides
+    that no operand pair lies in a class the sweep did not exercise (pairs of missed classes are replayed; hitting the
+    enumeration limit is INCONCLUSIVE VACUOUS)."""
 import json, os, shutil, subprocess, threading, time
 from concurrent.futures import ThreadPoolExecutor
 import vlib
 
 LEVEL = "model_checking"
 _lock = threading.Lock()
+GUARD_MAX = 40      # the guard enumerates at most this many uncovered classes; reaching the limit = inconclusive
 
 
 def _big(x):
@@ -22,17 +30,22 @@ def _big(x):
     return x
 
 
-def apalache(ctx, module, inv, cinit, init=None, nxt=None, view=None, max_error=None, timeout=900):
-    """One `apalache-mc check --length=0` run in its own scratch dir. Returns dict(outcome in
-    NoError|Error|Unknown, models=[{var: value}], wall, tail)."""
+def apalache(ctx, module, inv, cinit, init=None, nxt=None, view=None, max_error=None, timeout=900, extra=None):
+    """One `apalache-mc check --length=0` run in its own scratch dir. extra = {module name: text} of
+    generated modules. Returns dict(outcome in NoError|Error|Unknown, models=[{var: value}], wall, tail)."""
     d = ctx.scratch_dir("apa")
     for f in os.listdir(vlib.SPEC):
         if f.endswith(".tla"):
             shutil.copy(os.path.join(vlib.SPEC, f), d)
+    for name, text in (extra or {}).items():
+        with open(os.path.join(d, name + ".tla"), "w") as fo:
+            fo.write(text)
     tmp = os.path.join(d, "tmp")
     os.makedirs(tmp)
-    args = ["apalache-mc", "check", "--length=0", "--inv=" + inv, "--cinit=" + cinit,
+    args = ["apalache-mc", "check", "--length=0", "--inv=" + inv,
             "--out-dir=" + os.path.join(d, "out"), "--run-dir=" + os.path.join(d, "run")]
+    if cinit:
+        args.append("--cinit=" + cinit)
     if init:
         args.append("--init=" + init)
     if nxt:
@@ -83,6 +96,82 @@ def witness_steps(models, w, signed):
     return behs
 
 
+def tag(w, signed):
+    return "%s%d" % ("S" if signed else "U", w)
+
+
+def guard_module(w, signed, exercised):
+    """(G) generated module: is there an operand pair (of any of the four operations) whose boundary class
+    (OverflowB.ClassId) is not among the classes the sweep exercised on the real code? Every model carries the
+    required outcome computed by the solver, so that it can be replayed."""
+    return """---- MODULE OverflowG_%s ----
+EXTENDS Integers
+VARIABLES
+  \\* @type: Int;
+  a,
+  \\* @type: Int;
+  b,
+  \\* @type: Int;
+  op,
+  \\* @type: Bool;
+  gok,
+  \\* @type: Int;
+  gr,
+  \\* @type: Int;
+  gcls
+INSTANCE OverflowB WITH W <- %d, Signed <- %s
+Exercised == {%s}
+InitG == /\\ Init /\\ op \\in 0..3
+         /\\ gok = ReqOk(op, a, b) /\\ gr = Exact(op, a, b) /\\ gcls = ClassId(op, a, b)
+NextG == UNCHANGED <<a, b, op, gok, gr, gcls>>
+Covered == gcls \\in Exercised
+ViewG == gcls
+====
+""" % (tag(w, signed), w, "TRUE" if signed else "FALSE", ", ".join(str(c) for c in sorted(exercised)))
+
+
+def validation_module(name, recs):
+    """(V) generated module: every recorded evaluation (operands, required ok / result and boundary class as the
+    driver's exact-integer evaluator and classifier claim them) conforms to OverflowB.Conforms. Ground formulas:
+    Apalache's constant folding evaluates the spec's definitions on the literals."""
+    inst, conj = [], []
+    for w, sg in sorted({(r["w"], r["signed"]) for r in recs}):
+        inst.append("%s == INSTANCE OverflowB WITH W <- %d, Signed <- %s" % (tag(w, sg), w, "TRUE" if sg else "FALSE"))
+    for r in recs:
+        conj.append("  /\\ %s!Conforms(%d, %s, %s, %s, %s, %d)" % (tag(r["w"], r["signed"]), r["op"], r["a"], r["b"],
+                                                               "TRUE" if r["ok"] else "FALSE", r["r"], r["cls"]))
+    return """---- MODULE %s ----
+EXTENDS Integers
+VARIABLES
+  \\* @type: Int;
+  a,
+  \\* @type: Int;
+  b
+%s
+AllRecs ==
+%s
+InitV == a = 0 /\\ b = 0
+NextV == UNCHANGED <<a, b>>
+====
+""" % (name, "\n".join(inst), "\n".join(conj))
+
+
+def sweep(ctx, binary, nrand):
+    """boundary-directed replay on every type; returns (summary, classes{(w,signed): {cls: n}}, candidates, records)."""
+    out = os.path.join(ctx.scratch_dir("sweep"), "recs.ndjson")
+    res = vlib.run_driver(ctx, binary, ["-mode", "sweep", "-n", str(nrand), "-out", out])
+    classes, cands = {}, []
+    for r in res:
+        if r.get("kind") == "classes":
+            classes[(r["w"], r["signed"])] = {int(k): v for k, v in r["counts"].items()}
+            ctx.cov.setdefault("sweep_types", []).extend(r["types"])
+        elif r.get("kind") == "candidate":
+            cands.append(r)
+    s = vlib.handle_driver_results(ctx, [r for r in res if r.get("kind") in ("summary", "sample")])
+    recs = [json.loads(l) for l in open(out)]
+    return s, classes, cands, recs
+
+
 # classes of OverflowW.Class that have a model (signed: all; unsigned: those not needing negatives)
 EXPECT_CLASSES = {True: set(range(1, 31)),
                   False: {1, 3, 5, 8, 10, 11, 14, 18, 19, 20, 21, 22, 24, 25, 27, 28, 30}}
@@ -105,8 +194,39 @@ def run(ctx):
             return _orig(name)
     ctx.scratch_dir = _locked
     widths = (64,) if quick else (8, 16, 32, 64)
+    # ---- (R) boundary sweep on the real helpers (all types, all widths): before the solver jobs, which need its classes
+    sw, classes, cands, recs = sweep(ctx, binary, 1 if quick else 4)
+    ctx.add("traces_validated_against_impl", int(sw.get("sweep_pairs", 0)))
+    ctx.add("impl_evaluations", int(sw.get("evaluations", 0)))
+    ctx.cov["sweep_pairs"] = int(sw.get("sweep_pairs", 0))
+    ctx.cov["sweep_classes_exercised"] = {tag(w, sg): len(c) for (w, sg), c in sorted(classes.items())}
+    ctx.cov["sweep_classes_with_fewer_than_3_pairs"] = {tag(w, sg): sum(1 for v in c.values() if v < 3) for (w, sg), c in sorted(classes.items())}
+    ctx.cov["sweep_pairs_per_class_min_median"] = {tag(w, sg): [min(c.values()), sorted(c.values())[len(c) // 2]] for (w, sg), c in sorted(classes.items())}
+    ctx.log("sweep: %d boundary-directed pairs on %d types, %d calls on real helpers, %d disagreeing calls, classes exercised %s" %
+            (sw.get("sweep_pairs", 0), len(ctx.cov.get("sweep_types", [])), sw.get("evaluations", 0), sw.get("mismatches", 0),
+             ctx.cov["sweep_classes_exercised"]))
+    # records to validate against the spec: every record a real helper disagreed on + a seeded sample of class representatives
+    import random
+    rng = random.Random(ctx.seed)
+    vrecs = [r for r in recs if r["mis"]]
+    for key in sorted(classes):
+        pool = [r for r in recs if (r["w"], r["signed"]) == key and not r["mis"]]
+        vrecs += rng.sample(pool, min(len(pool), 3 if quick else 40))
     jobs = {}
     with ThreadPoolExecutor(max_workers=7 if quick else 8) as ex:
+        # (V) the driver's evaluator / classifier against OverflowB.Conforms
+        chunk = 40
+        for i in range(0, len(vrecs), chunk):
+            name = "OverflowV_%d" % (i // chunk)
+            jobs[("val", i)] = ex.submit(apalache, ctx, name, "AllRecs", None, init="InitV", nxt="NextV", timeout=1500,
+                                         extra={name: validation_module(name, vrecs[i:i + chunk])})
+        # (G) vacuity guard: a pair of a class the sweep did not exercise?
+        for w in widths:
+            for sg in (True, False):
+                name = "OverflowG_" + tag(w, sg)
+                jobs[("guard", w, sg)] = ex.submit(apalache, ctx, name, "Covered", None, init="InitG", nxt="NextG", view="ViewG",
+                                                   max_error=GUARD_MAX, timeout=1500,
+                                                   extra={name: guard_module(w, sg, classes[(w, sg)])})
         # (M) explicit, W = 8: invariants on every pair + table emission
         for cfg in ("Overflow_s8.cfg", "Overflow_u8.cfg"):
             jobs[("tlc", cfg)] = ex.submit(vlib.run_tlc, ctx, "MCOverflow", cfg, tags=("ROW",), timeout=900, workers=4,
@@ -118,7 +238,7 @@ def run(ctx):
                 for inv in invs:
                     jobs[("apa", w, sg, inv)] = ex.submit(apalache, ctx, "Overflow", inv, cname(w, sg))
         # boundary witnesses for the wide types
-        for w, sg in ([(64, True)] if quick else [(w, sg) for w in (16, 32, 64) for sg in (True, False)]):
+        for w, sg in ([] if quick else [(w, sg) for w in (16, 32, 64) for sg in (True, False)]):
             for part in ("InitW1", "InitW2", "InitW3"):
                 jobs[("wit", w, sg, part)] = ex.submit(apalache, ctx, "OverflowW", "NoWitness", cname(w, sg),
                                                        init=part, nxt="NextW", view="ViewW", max_error=30, timeout=1500)
@@ -153,11 +273,47 @@ def run(ctx):
         wbehs += witness_steps(models, w, sg)
         ctx.cov.setdefault("apalache_runs", []).append({"module": "OverflowW", "W": w, "signed": sg, "witnesses": len(models),
                                                         "wall_s": max(r["wall"] for r in parts)})
-    s = vlib.handle_driver_results(ctx, vlib.run_driver(ctx, binary, ["-mode", "witness"], behaviours=wbehs))
-    ctx.add("traces_validated_against_impl", int(s.get("replays", 0)))
-    ctx.add("impl_evaluations", int(s.get("evaluations", 0)))
+    if wbehs:
+        s = vlib.handle_driver_results(ctx, vlib.run_driver(ctx, binary, ["-mode", "witness"], behaviours=wbehs))
+        ctx.add("traces_validated_against_impl", int(s.get("replays", 0)))
+        ctx.add("impl_evaluations", int(s.get("evaluations", 0)))
+        ctx.log("witnesses: %d Apalache models (OverflowW) replayed on the wide types, %d mismatches" % (len(wbehs), s.get("mismatches", 0)))
     ctx.cov["apalache_witnesses_replayed"] = len(wbehs)
-    ctx.log("witnesses: %d Apalache models replayed on the wide types, %d mismatches" % (len(wbehs), s.get("mismatches", 0)))
+
+    # ---- (G) class coverage of the sweep, decided by the spec
+    gbehs = []
+    for k, r in sorted((k, r) for k, r in done.items() if k[0] == "guard"):
+        _, w, sg = k
+        ctx.cov.setdefault("apalache_runs", []).append({"module": "OverflowG", "W": w, "signed": sg, "outcome": r["outcome"],
+                                                        "uncovered_classes": len(r["models"]), "wall_s": r["wall"]})
+        if r["outcome"] not in ("NoError", "Error") or len(r["models"]) >= GUARD_MAX:
+            raise vlib.Inconclusive("VACUOUS", "class-coverage guard W=%d signed=%s: outcome %s, %d uncovered classes (limit %d)\n%s" %
+                                    (w, sg, r["outcome"], len(r["models"]), GUARD_MAX, r["tail"]))
+        for m in r["models"]:       # classes the generator missed: exercise them through the solver's pair
+            gbehs.append([{"act": "WitnessOp", "w": w, "signed": sg, "op": m["op"], "a": str(m["a"]), "b": str(m["b"]),
+                           "ok": bool(m["gok"]), "r": str(m["gr"]), "cls": m["gcls"]}])
+    if gbehs:
+        s = vlib.handle_driver_results(ctx, vlib.run_driver(ctx, binary, ["-mode", "witness"], behaviours=gbehs))
+        ctx.add("traces_validated_against_impl", int(s.get("replays", 0)))
+        ctx.add("impl_evaluations", int(s.get("evaluations", 0)))
+    ctx.cov["guard_classes_added_by_solver"] = len(gbehs)
+    ctx.log("guard: every non-empty boundary class of W in %s exercised on the real code (%d classes reached only through solver pairs)" % (list(widths), len(gbehs)))
+
+    # ---- (V) the sweep's required outcomes are the spec's; only then a disagreement is a violation
+    vals = [r for k, r in done.items() if k[0] == "val"]
+    for r in vals:
+        ctx.cov.setdefault("apalache_runs", []).append({"module": "OverflowV", "outcome": r["outcome"], "wall_s": r["wall"]})
+    if any(r["outcome"] == "Error" for r in vals):
+        raise vlib.Inconclusive("ORACLE-DIVERGENCE", "a record of the sweep (required outcome / class computed by the driver) does not conform to OverflowB.Conforms")
+    if any(r["outcome"] != "NoError" for r in vals):
+        raise vlib.Inconclusive("APALACHE", "validation of sweep records undecided: %s" % [r["tail"][-300:] for r in vals if r["outcome"] != "NoError"][:1])
+    ctx.cov["sweep_records_validated_by_spec"] = len(vrecs)
+    seen_keys = set()
+    for c in cands:                  # spec-confirmed: the real helper contradicts the exact result
+        if c["key"] not in seen_keys:
+            seen_keys.add(c["key"])
+            ctx.violation(c["key"], c["what"], c["case"])
+    ctx.log("validation: %d sweep records (incl. %d disagreeing) conform to OverflowB.Conforms" % (len(vrecs), sum(1 for r in vrecs if r["mis"])))
 
     # ---- (M) symbolic obligations
     undecided = []
@@ -182,4 +338,5 @@ def run(ctx):
         "the helpers are one generic source: the 8-bit exhaustive replay plus boundary witnesses bind the transcription to the code at the other widths",
         "embeddings x -> x<<k are exact homomorphisms for Add/Sub (both operands) and Mul (one operand): overflow at width 8+k iff overflow at width 8",
         "Z3 (through Apalache) decides the non-linear obligations soundly; every model it returns is replayed on the real helper",
-        "int/uint are 64-bit on the build platform"]
+        "int/uint are 64-bit on the build platform",
+        "sweep: the driver's exact-integer evaluator (math/big) and classifier are transcriptions of OverflowB.tla, checked against TLC's tables on every 8-bit pair and against OverflowB.Conforms (Apalache) on a seeded sample of class representatives and on every disagreeing record"]
